@@ -5,6 +5,7 @@ import (
 	"go/ast"
 	"go/token"
 	"go/types"
+	"sort"
 
 	"verif/engine/core"
 )
@@ -259,4 +260,90 @@ func callArg(call *ast.CallExpr, f *core.Fn, i int) ast.Expr {
 		return nil
 	}
 	return core.Unparen(call.Args[i])
+}
+
+// identityOperandCoverage: every function of the identity relation that takes "the other one" as its argument reads the
+// same fields of both operands.  A field read twice on the receiver and never on the argument (b.Source.Compare(b.Source))
+// is a comparison of a value with itself: the relation no longer distinguishes paths by that field.
+func identityOperandCoverage(c *core.Ctx, rule string) {
+	p := c.P
+	c.Floor(rule, 6)
+	var roots []*core.Fn
+	for _, k := range []string{"route.(*Path).Compare", "route.(*Path).Equal"} {
+		if f := c.MustFunc(k); f != nil {
+			roots = append(roots, f)
+		}
+	}
+	named := func(t types.Type) *types.Named {
+		if pt, ok := t.(*types.Pointer); ok {
+			t = pt.Elem()
+		}
+		n, _ := t.(*types.Named)
+		return n
+	}
+	for _, f := range p.ReachableFns(roots...) {
+		if f.Decl.Body == nil || f.Decl.Recv == nil {
+			continue
+		}
+		sig := f.Obj.Type().(*types.Signature)
+		recv := recvObj(f)
+		if recv == nil || sig.Params().Len() != 1 {
+			continue
+		}
+		param := types.Object(sig.Params().At(0))
+		nt := named(recv.Type())
+		if nt == nil || named(param.Type()) != nt {
+			continue
+		}
+		if _, isStruct := nt.Underlying().(*types.Struct); !isStruct {
+			continue
+		}
+		c.Analysed(f)
+		reads := map[types.Object]map[*types.Var]token.Pos{recv: {}, param: {}}
+		ast.Inspect(f.Decl.Body, func(n ast.Node) bool {
+			sel, ok := n.(*ast.SelectorExpr)
+			if !ok {
+				return true
+			}
+			fv := core.FieldOf(f.Pkg, sel)
+			if fv == nil {
+				return true
+			}
+			if m, ok := reads[core.ObjOf(f.Pkg, sel.X)]; ok {
+				if _, seen := m[fv]; !seen {
+					m[fv] = sel.Pos()
+				}
+			}
+			return true
+		})
+		all := map[*types.Var]bool{}
+		for fv := range reads[recv] {
+			all[fv] = true
+		}
+		for fv := range reads[param] {
+			all[fv] = true
+		}
+		var names []string
+		byName := map[string]*types.Var{}
+		for fv := range all {
+			names = append(names, fv.Name())
+			byName[fv.Name()] = fv
+		}
+		sort.Strings(names)
+		for _, nm := range names {
+			fv := byName[nm]
+			pr, okR := reads[recv][fv]
+			pp, okP := reads[param][fv]
+			pos := pr
+			if !okR {
+				pos = pp
+			}
+			missing := param.Name()
+			if !okR {
+				missing = recv.Name()
+			}
+			c.Check(okR && okP, rule, f.Name()+" reads "+nm+" of both operands", pos,
+				"field "+nm+" is read on one operand only (never on `"+missing+"`): it is compared with itself or not at all, so two paths that differ in it are `the same path` — withdrawing one removes the other")
+		}
+	}
 }
